@@ -34,7 +34,8 @@ def ctor_clause(ctx):
         ctx.mark("ctor" + json.dumps(rec))
         accepted = o["out"] == "ok"
         if rec["decidable"] and not accepted:
-            ctx.violation("constructor-rejects-decidable-configuration", rec, "accepted", o.get("type"))
+            # the property only says that what the constructor accepts is window-decidable; a stricter constructor is a conformance note
+            ctx.divergence("conformance:constructor-rejects-decidable-configuration", {"cfg": rec, "raised": o.get("type")})
         if not rec["decidable"] and accepted:
             ctx.violation("constructor-accepts-undecidable-configuration", rec, "ValueError", "accepted",
                           features={"run_equals_k": rec["run"] == rec["k"], "motif_longer_than_k": any(len(m) > rec["k"] for m in rec["motifs"])})
